@@ -421,3 +421,62 @@ func VerifInsertDeleteReinsert() {
 	m.docs = append(m.docs, dc)
 	checkAgainstModel(s, m, nil)
 }
+
+// VerifMultiIdRead: a read by several ids (_id, stringArray containsAny) returns exactly the
+// requested ids that are stored, each once and with its stored document, wherever unknown,
+// deleted or repeated ids stand in the request.
+func VerifMultiIdRead() {
+	s, _ := verifShard(verifSchema())
+	m := preState(s, nondetIntRange(0, vparam("PRE", 2)))
+	if len(m.ids) > 0 && vparam("DEL", 1) == 1 && nondetBool() {
+		// one stored point is deleted again before the read (a previously stored id)
+		gone := m.ids[0]
+		del, err := s.DeletePoints(map[uuid.UUID]struct{}{gone: {}})
+		vassume(err == nil && len(del) == 1)
+		m.ids, m.docs = m.ids[1:], m.docs[1:]
+	}
+	k := nondetIntRange(1, vparam("K", 3))
+	req := make([]uuid.UUID, k)
+	strs := make([]string, k)
+	for i := range req {
+		req[i] = nondetUUID()
+		strs[i] = req[i].String()
+	}
+	res, err := s.SearchPoints(models.SearchRequest{
+		Query:  models.Query{Property: "_id", StringArray: &models.SearchStringArrayOptions{Value: strs, Operator: models.OperatorContainsAny}},
+		Select: []string{"*"}, Limit: 10})
+	vcover("reached")
+	vassert("multi-id-read-no-error", err == nil)
+	if err != nil {
+		return
+	}
+	want := 0
+	for i, id := range m.ids {
+		asked := false
+		for _, r := range req {
+			if r == id {
+				asked = true
+			}
+		}
+		n := 0
+		for _, r := range res {
+			if r.Id == id {
+				n++
+				if asked {
+					doc := map[string]any{}
+					if len(r.Data) > 0 {
+						vassert("multi-id-read-document-decodes", msgpack.Unmarshal(r.Data, &doc) == nil)
+					}
+					checkDoc("multi-id-read-doc", doc, m.docs[i])
+				}
+			}
+		}
+		if asked {
+			want++
+			vassert("requested-stored-id-returned-once", n == 1)
+		} else {
+			vassert("unrequested-id-not-returned", n == 0)
+		}
+	}
+	vassert("multi-id-read-returns-only-stored-requested-ids", len(res) == want)
+}
